@@ -186,6 +186,28 @@ theorem C04_piecewise_flow {σ} (S : Sys σ) (p : Pars) (y0 : σ) (ops : List Op
   · rw [hspec]; exact hnow
   · rw [hspec, r.pars]; exact hcur
 
+/-- WHICH grid: an accepted `simulate(t_end, steps)` records exactly the points `linspace(reached, t_end, steps + 1)` (default: 100
+    points) — every one of them, with the flow from the current state — the first one dropped unless the result was empty.  (For
+    `simulate_time_course` the grid is the requested points not earlier than the time reached, the time reached prepended: identified
+    in `Spec.timeCourse_cases`, Lemmas/C04Spec.lean, and used by `C04_requested_once`; not restated here.) -/
+theorem C04_simulate_grid {σ} (S : Sys σ) (p : Pars) (y0 : σ) (ops : List Op) (t : Rat) (n : Option Nat)
+    (hlive : (after S p y0 ops).errors = 0)
+    (hacc : (step S (after S p y0 ops) (.simulate t n)).2 = none) :
+    (after S p y0 (ops ++ [.simulate t n])).segs = some (appendSeg (after S p y0 ops).segs
+      ((linspace (specAfter S p y0 ops).now t (nPoints n)).map fun τ =>
+        (τ, S.flow (after S p y0 ops).pars (τ - (specAfter S p y0 ops).now) (specAfter S p y0 ops).cur))
+      (after S p y0 ops).pars true) := by
+  obtain ⟨r, he, r', _, hspec, _⟩ := last_step S p y0 ops (.simulate t n)
+  rw [he] at hacc
+  have hf := live_of r hlive
+  rcases Spec.simulate_cases S (specAfter S p y0 ops) t n with ⟨_, h | h⟩ | ⟨g', _, hg, c⟩
+  · exact absurd hacc h
+  · rw [hf] at h; cases h
+  · rw [r'.segs, hspec]
+    show (Spec.simulate S (specAfter S p y0 ops) t n).1.segs = _
+    rw [c.eq, ← hg, r.segs, r.pars]
+    rfl
+
 /-- what "current state" is: a fresh simulator starts from `y0` -/
 theorem C04_cur_init {σ} (S : Sys σ) (p : Pars) (y0 : σ) : (specAfter S p y0 []).cur = y0 := rfl
 
